@@ -429,33 +429,7 @@ def md_step(d, op):
     raise core.Broken(f"unknown op {op}")
 
 
-MD_READ_KEYS = K + ["zz"]
-
-
-def md_reads_real(md):
-    out = {
-        "len": call(lambda: len(md)),
-        "bool": call(lambda: bool(md)),
-        "iter": call(lambda: list(md)),
-        "keys": call(lambda: list(md.keys())),
-        "values": call(lambda: list(md.values())),
-        "items": call(lambda: list(md.items())),
-        "items_multi": call(lambda: list(md.items(multi=True))),
-        "lists": call(lambda: [(k, list(l)) for k, l in md.lists()]),
-        "listvalues": call(lambda: [list(x) for x in md.listvalues()]),
-        "to_dict": call(lambda: md.to_dict()),
-        "to_dict_flat_false": call(lambda: md.to_dict(flat=False)),
-    }
-    for k in MD_READ_KEYS:
-        out["contains:" + k] = call(lambda: k in md)
-        out["getitem:" + k] = call(lambda: md[k])
-        out["get:" + k] = call(lambda: md.get(k))
-        out["get_default:" + k] = call(lambda: md.get(k, "D"))
-        out["get_type:" + k] = call(lambda: md.get(k, type=int))
-        out["get_default_type:" + k] = call(lambda: md.get(k, "D", type=int))
-        out["getlist:" + k] = call(lambda: md.getlist(k))
-        out["getlist_type:" + k] = call(lambda: md.getlist(k, type=int))
-    return out
+MD_READ_KEYS = ["a", "A", "b", "zz"]
 
 
 def md_reads_model(d):
@@ -473,6 +447,7 @@ def md_reads_model(d):
         "listvalues": okv([list(l) for l in d.values()]),
         "to_dict": okv({k: l[0] for k, l in ne}),
         "to_dict_flat_false": okv({k: list(l) for k, l in d.items()}),
+        "eq_self": okv((True, False)),
     }
     for k in MD_READ_KEYS:
         l = d.get(k)
@@ -496,12 +471,124 @@ def md_reads_model(d):
 
 def compare_reads(exp, got):
     """-> list of (read name, expected, observed) that disagree."""
+    if set(exp) != set(got):
+        raise core.Broken(f"read battery and model disagree about the reads: {sorted(set(exp) ^ set(got))[:8]}")
     bad = []
     for name, e in exp.items():
         g = got.get(name)
         if not same(e, g):
             bad.append((name, e, g))
     return bad
+
+
+# =====================================================================================
+# ONE table of read operations.  A family's read battery is every row whose `kinds` contains the family kind,
+# so a read that exists for one family cannot be forgotten for its view / immutable / combined variants; the
+# model of each family must answer exactly the same names (compare_reads raises Broken otherwise).
+# kinds: md = MultiDict / FileMultiDict / ImmutableMultiDict, cmd = CombinedMultiDict, hd = Headers,
+#        env = EnvironHeaders, hs = HeaderSet.   per: None | "key" | "index" | "slice"
+# =====================================================================================
+
+MAPS = {"md", "cmd"}
+HDRS = {"hd", "env"}
+ALLK = MAPS | HDRS | {"hs"}
+
+READ_OPS = [
+    ("len", ALLK, None, lambda o: len(o)),
+    ("bool", ALLK, None, lambda o: bool(o)),
+    ("iter", ALLK, None, lambda o: list(o)),
+    ("eq_self", ALLK, None, lambda o: (o == o, o != o)),
+    ("keys", MAPS | HDRS, None, lambda o: list(o.keys())),
+    ("values", MAPS | HDRS, None, lambda o: list(o.values())),
+    ("items", MAPS | HDRS, None, lambda o: list(o.items())),
+    ("items_multi", MAPS, None, lambda o: list(o.items(multi=True))),
+    ("lists", MAPS, None, lambda o: [(k, list(l)) for k, l in o.lists()]),
+    ("listvalues", MAPS, None, lambda o: [list(x) for x in o.listvalues()]),
+    ("to_dict", MAPS, None, lambda o: o.to_dict()),
+    ("to_dict_flat_false", MAPS, None, lambda o: o.to_dict(flat=False)),
+    ("keys_lower", HDRS, None, lambda o: list(o.keys(lower=True))),
+    ("items_lower", HDRS, None, lambda o: list(o.items(lower=True))),
+    ("to_wsgi_list", HDRS, None, lambda o: o.to_wsgi_list()),
+    ("copy", HDRS, None, lambda o: (type(o.copy()).__name__, list(o.copy()))),
+    ("str", HDRS | {"hs"}, None, lambda o: str(o)),
+    ("contains", ALLK, "key", lambda o, k: k in o),
+    ("getitem", MAPS | HDRS, "key", lambda o, k: o[k]),
+    ("get", MAPS | HDRS, "key", lambda o, k: o.get(k)),
+    ("get_default", MAPS | HDRS, "key", lambda o, k: o.get(k, "D")),
+    ("get_type", MAPS | HDRS, "key", lambda o, k: o.get(k, type=int)),
+    ("get_default_type", MAPS | HDRS, "key", lambda o, k: o.get(k, "D", type=int)),
+    ("getlist", MAPS | HDRS, "key", lambda o, k: o.getlist(k)),
+    ("getlist_type", MAPS | HDRS, "key", lambda o, k: o.getlist(k, type=int)),
+    ("get_all", HDRS, "key", lambda o, k: o.get_all(k)),
+    ("at", HDRS | {"hs"}, "index", lambda o, i: o[i]),
+    ("slice", HDRS, "slice", lambda o, sl: (type(o[slice(*sl)]).__name__, list(o[slice(*sl)]))),
+    ("as_set", {"hs"}, None, lambda o: sorted(o.as_set())),
+    ("as_set_casing", {"hs"}, None, lambda o: sorted(o.as_set(preserve_casing=True))),
+    ("to_header", {"hs"}, None, lambda o: o.to_header()),
+    ("find", {"hs"}, "key", lambda o, k: o.find(k)),
+    ("index_of", {"hs"}, "key", lambda o, k: o.index(k)),
+]
+
+READ_INDEXES = (0, 1, 2, -1, -2, -3, 4, -5)
+READ_SLICES = [(0, 1), (1, None), (None, None), (None, -1), (5, 9), (-2, None), (1, -1), (None, -2), (-9, 1)]
+READ_CFG = {
+    "md": {"key": ["a", "A", "b", "zz"]},
+    "cmd": {"key": ["a", "A", "b", "zz"]},
+    "hd": {"key": ["a", "A", "b", "B", "zz"], "index": READ_INDEXES, "slice": READ_SLICES},
+    "env": {"key": ["X-A", "x-a", "B", "Content-Type", "content-type", "Content-Length", "Request-Method", "Zz"],
+            "index": READ_INDEXES, "slice": READ_SLICES},
+    "hs": {"key": ["foo", "Foo", "FOO", "bar", "Bar", "baz", "BAZ", "qux"], "index": READ_INDEXES},
+}
+
+
+def read_names(kind):
+    out = []
+    for name, kinds, per, _fn in READ_OPS:
+        if kind in kinds:
+            out += [name] if per is None else [f"{name}:{a}" for a in READ_CFG[kind][per]]
+    return out
+
+
+def reads_real(kind, o):
+    out = {}
+    cfg = READ_CFG[kind]
+    for name, kinds, per, fn in READ_OPS:
+        if kind not in kinds:
+            continue
+        if per is None:
+            out[name] = call(lambda: fn(o))
+        else:
+            for a in cfg[per]:
+                out[f"{name}:{a}"] = call(lambda: fn(o, a))
+    if kind == "cmd":
+        for name in ("iter", "keys"):             # keys() is a set: order is not part of the model
+            if out[name][0] == "ok":
+                out[name] = ("ok", sorted(out[name][1]))
+    return out
+
+
+def md_reads_real(md):
+    return reads_real("md", md)
+
+
+def cmd_reads_real(c):
+    return reads_real("cmd", c)
+
+
+def hd_reads_real(h):
+    return reads_real("hd", h)
+
+
+def env_reads_real(eh):
+    return reads_real("env", eh)
+
+
+def hs_reads_real(hs):
+    return reads_real("hs", hs)
+
+
+def list_at(l, i):
+    return ("ok", l[i]) if -len(l) <= i < len(l) else ("exc", "IndexError")
 
 
 # ---- building real objects / FileStorage stubs
@@ -805,6 +892,7 @@ def cmd_reads_model(d1, d2):
         "listvalues": okv([list(merged[k]) for k in keys]),
         "to_dict": okv({k: merged[k][0] for k in keys}),
         "to_dict_flat_false": okv({k: list(merged[k]) for k in keys}),
+        "eq_self": okv((True, False)),
     }
     for k in MD_READ_KEYS:
         l = merged.get(k)
@@ -831,14 +919,6 @@ def cmd_reads_model(d1, d2):
         out["getlist:" + k] = okv(list(l or []))
         out["getlist_type:" + k] = okv([c[1] for c in map(conv_int, l or []) if c[0] == "ok"])
     return out
-
-
-def cmd_reads_real(c):
-    got = md_reads_real(c)
-    for name in ("iter", "keys"):                 # keys() is a set: order is not part of the model
-        if got[name][0] == "ok":
-            got[name] = ("ok", sorted(got[name][1]))
-    return got
 
 
 def cmd_transition(state, op):
@@ -981,9 +1061,11 @@ def hd_ops():
                 ("delitem", k), ("remove", k), ("pop_k", k), ("pop_kd", k),
                 ("setlist", k, ("x", "1")), ("setlist", k, ()), ("setlist", k, (1,)),
                 ("setdefault", k, "x"), ("setlistdefault", k, ("1", "x")), ("setlistdefault", k, ())]
-    for i in (0, 1, -1, 5):
-        ops += [("setitem_i", i, ("b", "x")), ("setitem_i", i, ("A", 1)), ("delitem_i", i), ("pop_i", i)]
-    for sl in ((0, 1), (1, None), (None, None), (0, 0), (None, -1)):
+    for i in (0, 1, -1, 5, 2, -2, -3, -6):
+        ops += [("setitem_i", i, ("b", "x")), ("delitem_i", i), ("pop_i", i)]
+    for i in (0, -1, -2):
+        ops.append(("setitem_i", i, ("A", 1)))
+    for sl in ((0, 1), (1, None), (None, None), (0, 0), (None, -1), (-2, None), (1, -1), (-9, 1)):
         ops += [("setitem_s", sl, (("A", "1"), ("b", 1))), ("setitem_s", sl, ()), ("delitem_s", sl)]
     ops += [("pop",), ("popitem",), ("clear",)]
     for spec in HD_ARGS:
@@ -1216,38 +1298,7 @@ def hd_step(lst, op):
     raise core.Broken(f"unknown op {op}")
 
 
-HD_READ_KEYS = ["a", "A", "b", "B", "zz"]
-HD_SLICES = [(0, 1), (1, None), (None, None), (None, -1), (5, 9)]
-
-
-def hd_reads_real(h):
-    out = {
-        "len": call(lambda: len(h)),
-        "bool": call(lambda: bool(h)),
-        "iter": call(lambda: list(h)),
-        "items": call(lambda: list(h.items())),
-        "items_lower": call(lambda: list(h.items(lower=True))),
-        "keys": call(lambda: list(h.keys())),
-        "keys_lower": call(lambda: list(h.keys(lower=True))),
-        "values": call(lambda: list(h.values())),
-        "to_wsgi_list": call(lambda: h.to_wsgi_list()),
-        "str": call(lambda: str(h)),
-    }
-    for k in HD_READ_KEYS:
-        out["contains:" + k] = call(lambda: k in h)
-        out["getitem:" + k] = call(lambda: h[k])
-        out["get:" + k] = call(lambda: h.get(k))
-        out["get_default:" + k] = call(lambda: h.get(k, "D"))
-        out["get_type:" + k] = call(lambda: h.get(k, type=int))
-        out["get_default_type:" + k] = call(lambda: h.get(k, "D", type=int))
-        out["getlist:" + k] = call(lambda: h.getlist(k))
-        out["getlist_type:" + k] = call(lambda: h.getlist(k, type=int))
-        out["get_all:" + k] = call(lambda: h.get_all(k))
-    for i in (0, 1, -1, 4):
-        out[f"index:{i}"] = call(lambda: h[i])
-    for sl in HD_SLICES:
-        out[f"slice:{sl}"] = call(lambda: (type(h[slice(*sl)]).__name__, list(h[slice(*sl)])))
-    return out
+HD_READ_KEYS = READ_CFG["hd"]["key"]
 
 
 def hd_reads_model(l, cls_name="Headers"):
@@ -1264,6 +1315,8 @@ def hd_reads_model(l, cls_name="Headers"):
         "values": okv([v for _k, v in l]),
         "to_wsgi_list": okv(list(l)),
         "str": okv("".join(f"{k}: {v}\r\n" for k, v in l) + "\r\n"),
+        "eq_self": okv((True, False)),
+        "copy": okv((cls_name, list(l))),
     }
     for k in HD_READ_KEYS:
         ik = k.lower()
@@ -1280,9 +1333,9 @@ def hd_reads_model(l, cls_name="Headers"):
         out["getlist:" + k] = okv(vals)
         out["getlist_type:" + k] = okv([c[1] for c in map(conv_int, vals) if c[0] == "ok"])
         out["get_all:" + k] = okv(vals)
-    for i in (0, 1, -1, 4):
-        out[f"index:{i}"] = okv(l[i]) if -len(l) <= i < len(l) else ("exc", "IndexError")
-    for sl in HD_SLICES:
+    for i in READ_INDEXES:
+        out[f"at:{i}"] = list_at(l, i)
+    for sl in READ_SLICES:
         out[f"slice:{sl}"] = okv((cls_name, l[slice(*sl)]))
     return out
 
@@ -1404,7 +1457,7 @@ def hs_ops():
         ops += [("add", x), ("remove", x), ("discard", x)]
     ops += [("update", ("foo", "Bar")), ("update", ("BAR", "baz", "Foo")), ("update", ()), ("update", ("baz", "BAZ")),
             ("clear",), ("pop",)]
-    for i in (0, 1, -1, 5):
+    for i in (0, 1, 2, -1, -2, -3, 5, -5):
         ops.append(("delitem", i))
         for x in ("Foo", "bar", "baz", "qux"):
             ops.append(("setitem", i, x))
@@ -1514,12 +1567,13 @@ def hs_step(lst, op):
         if not dup:
             l[i] = x
             return ok()
-        # assigning a value that is already present at another position: the statement does not say what
-        # happens; anything that is still a set with the right members is accepted (or a refusal).
-        a = list(l); a[i] = x; del a[dup[0]]
-        b = list(l); del b[i]
-        c = list(b); c[c.index(l[dup[0]])] = x
-        return [(("ok", None), a), (("ok", None), b), (("ok", None), c),
+        # assigning a value whose twin (other letter case) sits at another position: the result must still be
+        # a set, must CONTAIN the assigned spelling (a successful assignment cannot lose the value) and must
+        # leave every other element alone; which of the two positions survives is not stated.  A refusal
+        # that changes nothing is acceptable too.
+        a = list(l); a[i] = x; del a[dup[0]]              # assigned position kept, twin removed
+        c = list(l); c[dup[0]] = x; del c[i]              # twin position takes the assigned spelling
+        return [(("ok", None), a), (("ok", None), c),
                 (("exc", "ValueError"), list(lst)), (("exc", "KeyError"), list(lst))]
     if n == "isub":
         for x in op[1]:
@@ -1537,26 +1591,7 @@ def hs_step(lst, op):
     raise core.Broken(f"unknown op {op}")
 
 
-HS_PROBES = HS_ATOMS + ["BAZ", "qux"]
-
-
-def hs_reads_real(hs):
-    out = {
-        "len": call(lambda: len(hs)),
-        "bool": call(lambda: bool(hs)),
-        "iter": call(lambda: list(hs)),
-        "as_set": call(lambda: sorted(hs.as_set())),
-        "as_set_casing": call(lambda: sorted(hs.as_set(preserve_casing=True))),
-        "to_header": call(lambda: hs.to_header()),
-        "str": call(lambda: str(hs)),
-    }
-    for x in HS_PROBES:
-        out["contains:" + x] = call(lambda: x in hs)
-        out["find:" + x] = call(lambda: hs.find(x))
-        out["index:" + x] = call(lambda: hs.index(x))
-    for i in (0, 1, 2, -1, 3):
-        out[f"getitem:{i}"] = call(lambda: hs[i])
-    return out
+HS_PROBES = READ_CFG["hs"]["key"]
 
 
 def hs_reads_model(l):
@@ -1570,14 +1605,15 @@ def hs_reads_model(l):
         "as_set_casing": okv(sorted(set(l))),
         "to_header": okv(", ".join(l)),
         "str": okv(", ".join(l)),
+        "eq_self": okv((True, False)),
     }
     for x in HS_PROBES:
         i = low.index(x.lower()) if x.lower() in low else -1
         out["contains:" + x] = okv(i >= 0)
         out["find:" + x] = okv(i)
-        out["index:" + x] = okv(i) if i >= 0 else ("exc", "IndexError")
-    for i in (0, 1, 2, -1, 3):
-        out[f"getitem:{i}"] = okv(l[i]) if -len(l) <= i < len(l) else ("exc", "IndexError")
+        out["index_of:" + x] = okv(i) if i >= 0 else ("exc", "IndexError")
+    for i in READ_INDEXES:
+        out[f"at:{i}"] = list_at(list(l), i)
     return out
 
 
@@ -1695,7 +1731,7 @@ def hs_ctor_check(items):
 
 ENV_KEYS = ["HTTP_X_A", "HTTP_B", "CONTENT_TYPE", "CONTENT_LENGTH", "HTTP_CONTENT_TYPE", "REQUEST_METHOD"]
 ENV_VALS = ["1", ""]
-ENV_NAMES = ["X-A", "x-a", "B", "Content-Type", "content-type", "Content-Length", "Request-Method", "Zz"]
+ENV_NAMES = ["X-A", "x-a", "B", "Content-Type", "content-type", "Content-Length", "Request-Method", "Zz"]   # = READ_CFG["env"]["key"]
 ENV_OPS = ([("env_set", k, v) for k in ENV_KEYS for v in ENV_VALS + ["x"]] + [("env_del", k) for k in ENV_KEYS]
            + [("self",) + o for o in HD_OPS if o[0] not in ("setitem_s", "delitem_s") and not (o[0] in ("extend", "update") and o[1][0] == "none")]
            + [("self", "insert", 0, ("a", "1")), ("self", "copy"), ("self", "or", ("dict", (("a", "1"),)))])
@@ -1716,14 +1752,24 @@ def env_reads_model(env):
     items = env_model_items(env)
     out = {
         "len": okv(len(items)),
+        "bool": okv(bool(items)),
         "iter": okv(items),
         "items": okv(items),
         "items_lower": okv([(k.lower(), v) for k, v in items]),
         "keys": okv([k for k, _ in items]),
+        "keys_lower": okv([k.lower() for k, _ in items]),
         "values": okv([v for _, v in items]),
         "to_wsgi_list": okv(items),
         "str": okv("".join(f"{k}: {v}\r\n" for k, v in items) + "\r\n"),
+        "eq_self": okv((True, False)),
+        "copy": ("exc", "TypeError"),               # documented: cannot create EnvironHeaders copies
     }
+    # integer / slice access: EnvironHeaders.__getitem__ only takes header names (KeyError otherwise); the
+    # Headers answer (position in iteration order) would be as reasonable - the statement is silent
+    for i in READ_INDEXES:
+        out[f"at:{i}"] = Alt((("exc", "KeyError"), list_at(items, i)))
+    for sl in READ_SLICES:
+        out[f"slice:{sl}"] = Alt((("exc", "KeyError"), okv(("EnvironHeaders", items[slice(*sl)])), okv(("Headers", items[slice(*sl)]))))
     for name in ENV_NAMES:
         key = name.upper().replace("-", "_")
         ekey = key if key in ("CONTENT_TYPE", "CONTENT_LENGTH") else "HTTP_" + key
@@ -1752,28 +1798,15 @@ def env_reads_model(env):
         out["get_type:" + name] = alt(lambda p, v: conv(p, v, None))
         out["get_default_type:" + name] = alt(lambda p, v: conv(p, v, "D"))
         out["getlist:" + name] = alt(lambda p, v: okv([v] if p else []))
-    return out
+        out["get_all:" + name] = alt(lambda p, v: okv([v] if p else []))
 
+        def convl(p, v):
+            if not p:
+                return okv([])
+            c = conv_int(v)
+            return okv([c[1]] if c[0] == "ok" else [])
 
-def env_reads_real(eh):
-    out = {
-        "len": call(lambda: len(eh)),
-        "iter": call(lambda: list(eh)),
-        "items": call(lambda: list(eh.items())),
-        "items_lower": call(lambda: list(eh.items(lower=True))),
-        "keys": call(lambda: list(eh.keys())),
-        "values": call(lambda: list(eh.values())),
-        "to_wsgi_list": call(lambda: eh.to_wsgi_list()),
-        "str": call(lambda: str(eh)),
-    }
-    for name in ENV_NAMES:
-        out["contains:" + name] = call(lambda: name in eh)
-        out["getitem:" + name] = call(lambda: eh[name])
-        out["get:" + name] = call(lambda: eh.get(name))
-        out["get_default:" + name] = call(lambda: eh.get(name, "D"))
-        out["get_type:" + name] = call(lambda: eh.get(name, type=int))
-        out["get_default_type:" + name] = call(lambda: eh.get(name, "D", type=int))
-        out["getlist:" + name] = call(lambda: eh.getlist(name))
+        out["getlist_type:" + name] = alt(convl)
     return out
 
 
